@@ -379,7 +379,7 @@ pub fn placeholders(r: &mut Rng, ev: Ev) -> Vec<Ph> {
     match ev {
         Ev::F64 => fl.iter().map(|x| Ph::F64(fb(*x))).collect(),
         Ev::I64 => {
-            let mut v: Vec<i64> = vec![0, 1, -1, 2, 3, 7, 10, -5, 64, 1000, i64::MAX, i64::MIN, i64::MAX - 1];
+            let mut v: Vec<i64> = vec![0, 1, -1, 2, 3, 7, 10, -5, 64, 1000, i64::MAX, i64::MIN, i64::MAX - 1, 1 << 53, (1 << 53) + 1, (1 << 53) - 1, 1 << 31, (1 << 32) + 1, 3002399751580331, -(1 << 53) - 1];
             v.push((r.next() % 2001) as i64 - 1000);
             v.push(r.next() as i64);
             v.into_iter().map(Ph::I64).collect()
@@ -419,6 +419,12 @@ pub fn placeholders(r: &mut Rng, ev: Ev) -> Vec<Ph> {
             }
             v.push(Ph::NumI(i64::MAX));
             v.push(Ph::NumI(i64::MIN));
+            // integers that are distinct as i64 but collide (or round) as f64
+            for x in [1i64 << 53, (1 << 53) + 1, (1 << 53) - 1, i64::MAX - 1, 3002399751580331, -(1 << 53) - 1, 1 << 31, (1 << 32) + 1] {
+                v.push(Ph::NumI(x));
+            }
+            v.push(Ph::NumF(fb(9007199254740992.0)));
+            v.push(Ph::NumF(fb(4294967296.0)));
             v.push(Ph::NumI((r.next() % 2001) as i64 - 1000));
             v.push(Ph::NumF(fb(r.unit() * 20.0 - 10.0)));
             v
@@ -528,9 +534,9 @@ pub struct PoolSizes {
 fn pair_shapes(f: &str, g: &str, r: &mut Rng, all: bool) -> Vec<String> {
     let f = f.trim_end_matches('(');
     let g = g.trim_end_matches('(');
-    let leaf = |r: &mut Rng| ["@", "@", "1", "2", "@+1", "3"][r.below(6)].to_string();
+    let leaf = |r: &mut Rng| ["@", "@", "@", "1", "2", "@+1", "3", "@-1", "9007199254740993", "9223372036854775807", "0.5"][r.below(11)].to_string();
     let mut out = Vec::new();
-    let shapes: Vec<usize> = if all { (0..9).collect() } else { vec![r.below(9), r.below(9)] };
+    let shapes: Vec<usize> = if all { (0..if f == g { 12 } else { 9 }).collect() } else { vec![r.below(9), r.below(9)] };
     for s in shapes {
         let (a, b, c) = (leaf(r), leaf(r), leaf(r));
         out.push(match s {
@@ -542,6 +548,9 @@ fn pair_shapes(f: &str, g: &str, r: &mut Rng, all: bool) -> Vec<String> {
             5 => format!("{}({},{})+{}({},{})", f, a, b, g, b, c),
             6 => format!("{}({}({}({})))", f, g, f, a),
             7 => format!("{}(1+{}({}))", f, g, a),
+            9 => format!("{}({})", f, a),
+            10 => format!("{}({},{})", f, a, b),
+            11 => format!("{}({},{},{})", f, a, b, c),
             _ => format!("{}({},{}({}),{})", f, a, g, b, c),
         });
     }
@@ -778,7 +787,7 @@ pub fn build_pool(seed: u64, repo: &str, sz: &PoolSizes, focus: Option<&PoolFocu
                 for f in &fnames {
                     for g in &fnames {
                         for t in pair_shapes(f, g, &mut r, true) {
-                            add_expr(&mut pool, &mut r, e, t, "change_focus", 3);
+                            add_expr(&mut pool, &mut r, e, t, "change_focus", 6);
                         }
                     }
                 }
